@@ -215,6 +215,17 @@ def run(chk, replay=None):
             c, b = rng.choice(zer) if (zer and rng.random() < 0.02) else rng.choice(pos[: max(1, len(pos) // 3)] if rng.random() < 0.6 else pos)
             w[c][b] += 1
         fc = B.forecast(data, layout=['C', 'F', 'T'][(t // 4) % 3], dtype=('float32' if f32 else None))
+        if t % 7 in (3, 5) and not f32:
+            # the same rates held as stored rates x an array scale factor (one factor per cell, or per bin; powers of two, so
+            # the product is exactly `data`): the tests are functions of the rates the forecast reports
+            sc = numpy.array([[2.0 ** rng.choice([-2, -1, 1, 3])] for _ in range(nc)])
+            if t % 7 == 5 and t % 2:
+                sc = sc * numpy.array([[2.0 ** rng.choice([-1, 0, 2]) for _ in range(nb)]])
+            fc = B.forecast(data / sc, layout=['C', 'F', 'T'][(t // 4) % 3])
+            fc.scale(sc)
+            if numpy.array(fc.data, dtype=float).tobytes() != numpy.ascontiguousarray(data).tobytes():
+                raise MachineryError('array-scaled forecast does not report the intended rates')
+            chk.nontrivial('array-scale|%s|%d' % (kind, t))
         cat = B.catalog(w, nc, nb, rng)
         nsim = 3 if kind != 'L' else 12
         sims = []
